@@ -59,6 +59,7 @@ ASSUMPTIONS = [
 ]
 
 KNOWN_DEFECT_SIGS = ("C09:read_all-leaves-bank-latched",)
+LAST_OUTCOME = [None]      # outcome class of the most recent case (histogram only)
 HEADER = ("LastAddress", "LockByte")
 NLOC = 255
 
@@ -454,6 +455,7 @@ def case_value(case):
                         "reference decode %r" % (where, val, ["0x%02x" % a for a in row["locs"]], hexs(raw),
                                                  RM.decode(row, raw))))
     _unit_checks(w, out, where, outcome == "returned")
+    LAST_OUTCOME[0] = "outcome:value:" + outcome
     return out
 
 
@@ -573,6 +575,9 @@ def case_bank(case):
                                        hexs(expected[k]), RM.decode(r, expected[k]))))
                         break
     _unit_checks(w, out, where, outcome == "returned")
+    LAST_OUTCOME[0] = "outcome:bank:" + (outcome if outcome != "returned" else
+                                         "returned-%s" % ("nothing" if not val else "all" if len(expected) == len(spec["values"])
+                                                          else "some"))
     return out
 
 
@@ -635,7 +640,11 @@ def _runner(res, strip=True):
         for x in feats:
             res.label(x)
         res.label(label or case["kind"])
-        for sig, msg in run_case(case):
+        LAST_OUTCOME[0] = None
+        vs = run_case(case)
+        if LAST_OUTCOME[0]:
+            res.label(LAST_OUTCOME[0])
+        for sig, msg in vs:
             if strip and sig in KNOWN_DEFECT_SIGS:
                 res.excluded[sig] += 1
             else:
